@@ -94,6 +94,8 @@ def _short(d, n=24):
     out = {}
     groups = {}
     for k, v in d.items():
+        if "!" in k:
+            continue   # engine-introduced symbols (UF outputs, inverse witnesses, stub randomness): kept in the replay file, not shown
         if len(k) > 3 and k[-3:].isdigit():
             groups.setdefault(k[:-3], []).append((int(k[-3:]), v))
         else:
